@@ -72,7 +72,7 @@ class TTMatrix:
             # b x i_0 x j_0, ..., i_{d - 1} x j_{d - 1}
 
             new_dims: List[int] = (
-                torch.tensor([0] + list(zip(dims[: self.d], dims[self.d :])))
+                [0] + torch.tensor(list(zip(dims[: self.d], dims[self.d :])))
                 .flatten()
                 .tolist()
             )
